@@ -40,6 +40,10 @@ INVALID = ["bogus", "utf8x", "utf-32", "none", "x-nope", "utf 8", "latin-99",
 INVALID_ARG_ONLY = ["koi8-r\xa0", "\u212aoi8-r", "utf-8\u2003", "\u017fhift_jis"]
 BOMS = {"utf-8": codecs.BOM_UTF8, "utf-16le": codecs.BOM_UTF16_LE, "utf-16be": codecs.BOM_UTF16_BE}
 
+# ... plus every other label webencodings knows (about 200), except those of the UTF-16 family and the two encodings kept
+# out of <meta> declarations; drawn with a lower weight than the hand-picked ones above
+ALL_VALID = sorted(lab for lab, name in webencodings.LABELS.items()
+                   if name not in ("utf-16le", "utf-16be", "x-user-defined", "replacement"))
 for _l in VALID + UTF16:
     assert webencodings.lookup(_l) is not None, _l
 for _l in UTF16:
@@ -192,6 +196,9 @@ def effective_bom(payload):
     return None, 0
 
 
+NO_TREE_META_CONTAINERS = ("title", "textarea", "style", "script", "xmp", "plaintext", "select")
+
+
 def lookup_name(label):
     if label is None:
         return None
@@ -255,6 +262,10 @@ def ground_truth(case, payload_len, decls):
     if tentative in ("utf-16le", "utf-16be"):
         # the ASCII bytes of the document do not decode to markup
         return tentative, rule + "+utf16-tentative-final", info
+    if case.get("container") in NO_TREE_META_CONTAINERS:
+        # fragment context in which no <meta> start tag reaches the in-head handler: the tokenizer starts in RCDATA /
+        # RAWTEXT / PLAINTEXT with no matching end tag, or (select) the start tag is ignored
+        return tentative, rule + "+fragment-context-hides-meta", info
     for d in decls:
         if d["vis"] != "both" or not d["effective"] or d["end"] >= payload_len:
             continue
@@ -274,6 +285,10 @@ def ground_truth(case, payload_len, decls):
 def _label(rng, kind=None):
     kind = kind or rng.choice(["valid", "valid", "valid", "utf16", "invalid"])
     if kind == "valid":
+        if rng.random() < 0.3:
+            lab = rng.choice(ALL_VALID)
+            r = rng.random()
+            return lab.upper() if r < 0.2 else (lab.title() if r < 0.3 else lab)
         return rng.choice(VALID)
     if kind == "utf16":
         return rng.choice(UTF16)
@@ -428,7 +443,8 @@ def gen_doc(rng):
     if rng.random() < 0.12:
         # fragment parsing goes through the same sniffing and restart; only
         # contexts in which a <meta> start tag reaches the in-head handler
-        case["container"] = rng.choice(["div", "body", "head", "td", "p", "html"])
+        case["container"] = rng.choice(["div", "body", "head", "td", "p", "html", "table", "tr", "title", "textarea", "style",
+                                        "script", "xmp", "plaintext", "select"])
     return case
 
 
